@@ -46,6 +46,16 @@ def run(chk):
     for m in names.machine_variants():
         beam_map(chk, prog, names, m)
     device(chk, prog, names)
+    # the colour and the clock a port write hands to set_border_color: the ULA-write leaf rule of C07's decode walk
+    from . import c07
+    from zx.report import FilteredCheck
+    chk.rule("T-BITS (shared with C07)", "on every write_io path reaching the ULA: colour = data & 7, stamped with the controller's frame clock at the device write")
+    fc = FilteredCheck(chk, lambda k: k.startswith("T-BITS/") and (k.endswith("/border") or k.endswith("/border-clock")), "c07")
+    c07._KB.clear()
+    c07._KB["prog"], c07._KB["names"] = prog, names
+    for m in names.machine_variants():
+        c07.decode(fc, prog, names, m, "write_io")
+    chk.check(fc.forwarded >= 8, "T-BITS/ZXController::write_io/ula-paths", "only %d ULA write paths were judged" % fc.forwarded)
     return chk.finish(EXPL)
 
 
